@@ -109,6 +109,10 @@ func corpus() []corpusEntry {
 		{"Equals", []cty.Value{objC, objC}, []cty.Value{cty.ObjectVal(map[string]cty.Value{"c": cty.DynamicVal}), cty.UnknownVal(objC.Type()).RefineNotNull()}},
 		// fixed: HasElement type shortcut with nested dynamic
 		{"HasElement", []cty.Value{cty.SetVal([]cty.Value{objC}), objC}, []cty.Value{cty.SetVal([]cty.Value{objC}), cty.ObjectVal(map[string]cty.Value{"c": cty.DynamicVal})}},
+		// fixed (F-153): wholly known operands whose types differ in a dynamic part give a known answer
+		{"HasElement", []cty.Value{cty.SetValEmpty(cty.DynamicPseudoType), s("a")}, []cty.Value{cty.SetValEmpty(cty.DynamicPseudoType), cty.UnknownVal(cty.String)}},
+		{"HasElement", []cty.Value{cty.SetVal([]cty.Value{cty.NullVal(cty.DynamicPseudoType)}), s("a")}, []cty.Value{cty.SetVal([]cty.Value{cty.NullVal(cty.DynamicPseudoType)}), cty.DynamicVal}},
+		{"HasElement", []cty.Value{cty.SetValEmpty(cty.String), cty.ListValEmpty(cty.DynamicPseudoType)}, []cty.Value{cty.UnknownVal(cty.Set(cty.String)), cty.ListValEmpty(cty.DynamicPseudoType)}},
 		// fixed: dynamic parts on both sides
 		{"Equals", []cty.Value{t1, t1}, []cty.Value{cty.TupleVal([]cty.Value{cty.NullVal(cty.Set(cty.Bool)), cty.DynamicVal}), cty.TupleVal([]cty.Value{cty.DynamicVal, cty.EmptyObjectVal})}},
 	}
